@@ -5,8 +5,11 @@ C19 — property theorems for `vcode` and `genNonceStr` (model: `Nv.Model.C19`).
 
 Histories are arbitrary lists of `Op` run with `Nv.final (step c pr)`; states are arbitrary unless a
 hypothesis says otherwise.  Theorems stated on cache keys (`Op.key c`) hold for *every* configuration;
-`key_eq_iff_pair` (Proofs) turns a key into the (area, phone) pair for `Proved c` and dash-free area codes,
-and the `…` pair-level versions below use it.  `Proved c` = both key formats dashed, nonce bound = length.
+`key_eq_iff_pair` (Proofs) turns a key into the (area, phone) pair for `Proved c` — for ALL strings, because the
+length-prefixed key is injective (`mkKey_lenPrefix_inj`).  `Proved c` = both key formats length-prefixed, nonce
+bound = length.  The cache is a bounded LRU: where a theorem needs an entry to survive, it says so with the
+decidable hypothesis `noEvict` (the key is never evicted during the history), which `noEvict_of_few_others`
+discharges from "fewer operations on other keys than the capacity".
 -/
 namespace Nv.C19
 
@@ -14,48 +17,157 @@ namespace Nv.C19
 def verifiesOf (c : Cfg) (k : Str) (ops : List Op) : Nat :=
   (ops.filter (fun o => !o.isSend && decide (o.key c = k))).length
 
-/-- verify operations do not create or delete bindings; with no send to `k` the binding of `k` only counts attempts -/
+/-- number of operations addressing another key than `k` -/
+def othersOf (c : Cfg) (k : Str) (ops : List Op) : Nat :=
+  (ops.filter (fun o => decide (o.key c ≠ k))).length
+
+def present (k : Str) (s : State) : Bool := (lookup k s.cache).isSome
+
+/-- the binding of `k` is never evicted during the history (it may be absent, created, overwritten — not lost) -/
+def noEvict (c : Cfg) (pr : Params) (k : Str) : State → List Op → Bool
+  | _, [] => true
+  | s, o :: os => (!present k s || present k (step c pr s o).1) && noEvict c pr k (step c pr s o).1 os
+
+/-! ### eviction: a sufficient, purely syntactic condition -/
+
+theorem step_same_key_pos (c : Cfg) (pr : Params) (hcap : 0 < pr.cap) (s : State) (o : Op) (k : Str)
+    (hk : o.key c = k) :
+    (present k s = true → present k (step c pr s o).1 = true) ∧
+      posOr0 k (step c pr s o).1.cache ≤ posOr0 k s.cache := by
+  cases o with
+  | send a p =>
+    have hk' : mkKey c.sendKeyFmt a p = k := hk
+    simp only [step, send, hk']
+    rcases sendK_cases pr s k p with ⟨_, h2⟩ | ⟨cnt, _, h2, _⟩
+    · rw [h2]; exact ⟨id, Nat.le_refl _⟩
+    · rw [h2]
+      have hl := lookup_setLRU_self k pr.cap hcap ⟨cnt + 1, 0, genCode pr p (s.nsent + 1), s.nsent + 1⟩ s.cache
+      refine ⟨fun _ => by simp [present, hl], ?_⟩
+      simp only [posOr0, hl, Option.isSome_some, if_true]
+      rw [setLRU, pos_take _ _ _ (by rw [pos_touch_self]; exact hcap), pos_touch_self]
+      exact Nat.zero_le _
+  | verify a p code hash =>
+    have hk' : mkKey c.verifyKeyFmt a p = k := hk
+    simp only [step, verify, hk']
+    cases hl : lookup k s.cache with
+    | none => rw [verifyK_none _ _ _ _ _ hl]; exact ⟨id, Nat.le_refl _⟩
+    | some e =>
+      rw [verifyK_some _ _ _ _ _ e hl]
+      refine ⟨fun _ => by simp [present], ?_⟩
+      simp [posOr0, pos_touch_self]
+
+theorem step_other_key_pos (c : Cfg) (pr : Params) (s : State) (o : Op) (k : Str) (hk : o.key c ≠ k)
+    (hp : present k s = true) (hpos : pos k s.cache + 1 < pr.cap) :
+    present k (step c pr s o).1 = true ∧ pos k (step c pr s o).1.cache ≤ pos k s.cache + 1 := by
+  have hp' : (lookup k s.cache).isSome = true := hp
+  cases o with
+  | send a p =>
+    have hk' : k ≠ mkKey c.sendKeyFmt a p := fun e => hk e.symm
+    simp only [step, send]
+    rcases sendK_cases pr s (mkKey c.sendKeyFmt a p) p with ⟨_, h2⟩ | ⟨cnt, _, h2, _⟩
+    · rw [h2]; exact ⟨hp, Nat.le_succ _⟩
+    · rw [h2]
+      have hpt := pos_touch_ne hk' ⟨cnt + 1, 0, genCode pr p (s.nsent + 1), s.nsent + 1⟩ s.cache hp'
+      have hlt : (lookup k (touch (mkKey c.sendKeyFmt a p) ⟨cnt + 1, 0, genCode pr p (s.nsent + 1), s.nsent + 1⟩ s.cache)).isSome = true := by
+        rw [lookup_touch_ne hk']; exact hp'
+      refine ⟨?_, ?_⟩
+      · simp only [present, setLRU]
+        rw [lookup_take_of_pos _ _ _ hlt (by omega)]; exact hlt
+      · simp only [setLRU]; rw [pos_take _ _ _ (by omega)]; exact hpt
+  | verify a p code hash =>
+    have hk' : k ≠ mkKey c.verifyKeyFmt a p := fun e => hk e.symm
+    simp only [step, verify]
+    cases hl : lookup (mkKey c.verifyKeyFmt a p) s.cache with
+    | none => rw [verifyK_none _ _ _ _ _ hl]; exact ⟨hp, Nat.le_succ _⟩
+    | some e =>
+      rw [verifyK_some _ _ _ _ _ e hl]
+      refine ⟨?_, pos_touch_ne hk' _ _ hp'⟩
+      simp only [present]; rw [lookup_touch_ne hk']; exact hp'
+
+/-- **no eviction** whenever the position of the key plus the number of operations on other keys stays below the
+    capacity — in particular for every history with fewer than `CacheSize` operations on other keys after a send -/
+theorem noEvict_of_few_others (c : Cfg) (pr : Params) (k : Str) : ∀ (ops : List Op) (s : State),
+    posOr0 k s.cache + othersOf c k ops < pr.cap → noEvict c pr k s ops = true
+  | [], _, _ => rfl
+  | o :: os, s, h => by
+    have hcap : 0 < pr.cap := by omega
+    simp only [noEvict, Bool.and_eq_true, Bool.or_eq_true, Bool.not_eq_true']
+    by_cases hk : o.key c = k
+    · have ho : othersOf c k (o :: os) = othersOf c k os := by simp [othersOf, hk]
+      have := step_same_key_pos c pr hcap s o k hk
+      refine ⟨?_, noEvict_of_few_others c pr k os _ (by rw [ho] at h; omega)⟩
+      cases hp : present k s with
+      | false => exact Or.inl rfl
+      | true => exact Or.inr (this.1 hp)
+    · have ho : othersOf c k (o :: os) = othersOf c k os + 1 := by simp [othersOf, hk]
+      rw [ho] at h
+      cases hp : present k s with
+      | false =>
+        refine ⟨Or.inl rfl, noEvict_of_few_others c pr k os _ ?_⟩
+        have hn : lookup k s.cache = none := by
+          simp only [present] at hp; cases hl : lookup k s.cache <;> simp_all
+        have := step_lookup_other_none c pr s o k hk hn
+        simp only [posOr0, this, Option.isSome_none, Bool.false_eq_true, if_false]; omega
+      | true =>
+        have hpos : posOr0 k s.cache = pos k s.cache := by
+          simp only [present] at hp; simp [posOr0, hp]
+        rw [hpos] at h
+        have := step_other_key_pos c pr s o k hk hp (by omega)
+        refine ⟨Or.inr this.1, noEvict_of_few_others c pr k os _ ?_⟩
+        have h1 : posOr0 k (step c pr s o).1.cache = pos k (step c pr s o).1.cache := by
+          have := this.1; simp only [present] at this; simp [posOr0, this]
+        rw [h1]; omega
+
+/-! ### tracking the binding of a key through a history -/
+
+/-- with no send to `k` and no eviction of `k`, the binding of `k` only counts attempts -/
 theorem track (c : Cfg) (pr : Params) (k : Str) : ∀ (ops : List Op) (s : State) (e : Entry),
-    lookup k s.cache = some e → (∀ o ∈ ops, o.isSend = true → o.key c ≠ k) →
+    lookup k s.cache = some e → (∀ o ∈ ops, o.isSend = true → o.key c ≠ k) → noEvict c pr k s ops = true →
     lookup k (final (step c pr) s ops).cache =
       some { e with verifyCount := e.verifyCount + (verifiesOf c k ops : Nat) }
-  | [], s, e, hl, _ => by simp [verifiesOf, hl]
-  | o :: os, s, e, hl, hns => by
+  | [], s, e, hl, _, _ => by simp [verifiesOf, hl]
+  | o :: os, s, e, hl, hns, hev => by
     have hns' : ∀ o' ∈ os, o'.isSend = true → o'.key c ≠ k := fun o' h => hns o' (by simp [h])
+    simp only [noEvict, Bool.and_eq_true, Bool.or_eq_true, Bool.not_eq_true', present, hl,
+      Option.isSome_some, Bool.true_eq_false, false_or] at hev
     by_cases hk : o.key c = k
     · cases o with
       | send a p => exact absurd hk (hns _ (by simp) rfl)
       | verify a p code hash =>
         have hk' : mkKey c.verifyKeyFmt a p = k := hk
         have hs : (step c pr s (.verify a p code hash)).1 =
-            ⟨(k, { e with verifyCount := e.verifyCount + 1 }) :: s.cache, s.nsent⟩ := by
+            ⟨touch k { e with verifyCount := e.verifyCount + 1 } s.cache, s.nsent⟩ := by
           simp only [step, verify, hk']; rw [verifyK_some _ _ _ _ _ e hl]
-        rw [final_cons, hs, track c pr k os _ _ (lookup_cons_self _ _ _) hns']
+        rw [final_cons, track c pr k os _ _ (by rw [hs]; exact lookup_touch_self _ _ _) hns' hev.2]
         have : verifiesOf c k (Op.verify a p code hash :: os) = verifiesOf c k os + 1 := by
           simp [verifiesOf, Op.isSend, hk]
         rw [this]; simp only [Option.some.injEq, Entry.mk.injEq, true_and, and_true]; omega
-    · have hl' : lookup k (step c pr s o).1.cache = some e := by rw [step_lookup_other c pr s o k hk]; exact hl
-      rw [final_cons, track c pr k os _ e hl' hns']
+    · have hl' : lookup k (step c pr s o).1.cache = some e := by
+        rcases step_lookup_other c pr s o k hk with h1 | h1
+        · rw [h1] at hev; simp at hev
+        · rw [h1]; exact hl
+      rw [final_cons, track c pr k os _ e hl' hns' hev.2]
       have : verifiesOf c k (o :: os) = verifiesOf c k os := by simp [verifiesOf, hk]
       rw [this]
 
 /-! ### vc_send_then_verify -/
 
-/-- key level, every configuration whose two key formats agree: after an accepted send, any history that does
-    not send to that key again and makes fewer than `MaxVerifyCount` attempts against it, the sent code with
-    the returned hash verifies (lifetime not over) -/
+/-- key level, every configuration whose two key formats agree: after an accepted send (capacity ≥ 1), any history that
+    does not send to that key again, does not evict it and makes fewer than `MaxVerifyCount` attempts against it, the sent
+    code with the returned hash verifies (lifetime not over) -/
 theorem vc_send_then_verify_key (c : Cfg) (pr : Params) (hfmt : c.sendKeyFmt = c.verifyKeyFmt)
-    (httl : pr.ttlExpired = false) (s : State) (a p : Str) (h : Nat)
+    (httl : pr.ttlExpired = false) (hcap : 0 < pr.cap) (s : State) (a p : Str) (h : Nat)
     (hacc : (send c pr s a p).2.accepted = some h) (ops : List Op)
     (hns : ∀ o ∈ ops, o.isSend = true → o.key c ≠ mkKey c.sendKeyFmt a p)
+    (hev : noEvict c pr (mkKey c.sendKeyFmt a p) (send c pr s a p).1 ops = true)
     (hn : (verifiesOf c (mkKey c.sendKeyFmt a p) ops : Int) < pr.maxVerify) :
     (verify c pr (final (step c pr) (send c pr s a p).1 ops) a p (genCode pr p h) h).2 = .ok := by
-  unfold send at hacc ⊢
+  unfold send at hacc hev ⊢
   rcases sendK_cases pr s (mkKey c.sendKeyFmt a p) p with ⟨h1, _⟩ | ⟨cnt, h1, h2, _⟩
   · rw [h1] at hacc; cases hacc
   · rw [h1] at hacc; cases hacc
     have hl := track c pr (mkKey c.sendKeyFmt a p) ops (sendK pr s (mkKey c.sendKeyFmt a p) p).1 _
-      (by rw [h2]; exact lookup_cons_self _ _ _) hns
+      (by rw [h2]; exact lookup_setLRU_self _ _ hcap _ _) hns hev
     unfold verify
     rw [← hfmt, verifyK_some _ _ _ _ _ _ hl]
     simp only
@@ -67,38 +179,78 @@ theorem vc_send_then_verify_key (c : Cfg) (pr : Params) (hfmt : c.sendKeyFmt = c
 def verifiesOfPair (a p : Str) (ops : List Op) : Nat :=
   (ops.filter (fun o => !o.isSend && decide (o.pair = (a, p)))).length
 
-theorem verifiesOf_eq_pair (c : Cfg) (hc : Proved c) (a p : Str) (ha : '-' ∉ a) (ops : List Op)
-    (hd : ∀ o ∈ ops, '-' ∉ o.area) : verifiesOf c (mkKey .dash a p) ops = verifiesOfPair a p ops := by
+/-- operations naming another pair -/
+def othersOfPair (a p : Str) (ops : List Op) : Nat :=
+  (ops.filter (fun o => decide (o.pair ≠ (a, p)))).length
+
+theorem verifiesOf_eq_pair (c : Cfg) (hc : Proved c) (a p : Str) (ops : List Op) :
+    verifiesOf c (mkKey .lenPrefix a p) ops = verifiesOfPair a p ops := by
   unfold verifiesOf verifiesOfPair
   congr 1
   apply List.filter_congr
-  intro o ho
-  have := key_eq_iff_pair c hc o a p ha (hd o ho)
-  by_cases h : o.key c = mkKey .dash a p
+  intro o _
+  have := key_eq_iff_pair c hc o a p
+  by_cases h : o.key c = mkKey .lenPrefix a p
   · simp [h, this.1 h]
   · have h' : o.pair ≠ (a, p) := fun e => h (this.2 e)
     simp [h, h']
 
-/-- **vc_send_then_verify** (pair level, `Proved c`): a code sent to (a, p) verifies with the returned hash, after any
-    history over dash-free area codes that neither sends to (a, p) again nor uses up its attempts -/
-theorem vc_send_then_verify (c : Cfg) (hc : Proved c) (pr : Params) (httl : pr.ttlExpired = false)
-    (s : State) (a p : Str) (ha : '-' ∉ a) (h : Nat) (hacc : (send c pr s a p).2.accepted = some h)
-    (ops : List Op) (hd : ∀ o ∈ ops, '-' ∉ o.area)
-    (hns : ∀ o ∈ ops, o.isSend = true → o.pair ≠ (a, p))
+theorem othersOf_eq_pair (c : Cfg) (hc : Proved c) (a p : Str) (ops : List Op) :
+    othersOf c (mkKey .lenPrefix a p) ops = othersOfPair a p ops := by
+  unfold othersOf othersOfPair
+  congr 1
+  apply List.filter_congr
+  intro o _
+  have := key_eq_iff_pair c hc o a p
+  by_cases h : o.key c = mkKey .lenPrefix a p
+  · simp [h, this.1 h]
+  · have h' : o.pair ≠ (a, p) := fun e => h (this.2 e)
+    simp [h, h']
+
+/-- **vc_send_then_verify** (pair level, `Proved c`, ALL strings): a code sent to (a, p) verifies with the returned hash,
+    after any history that neither sends to (a, p) again, nor evicts its entry, nor uses up its attempts -/
+theorem vc_send_then_verify (c : Cfg) (hc : Proved c) (pr : Params) (httl : pr.ttlExpired = false) (hcap : 0 < pr.cap)
+    (s : State) (a p : Str) (h : Nat) (hacc : (send c pr s a p).2.accepted = some h)
+    (ops : List Op) (hns : ∀ o ∈ ops, o.isSend = true → o.pair ≠ (a, p))
+    (hev : noEvict c pr (mkKey .lenPrefix a p) (send c pr s a p).1 ops = true)
     (hn : (verifiesOfPair a p ops : Int) < pr.maxVerify) :
     (verify c pr (final (step c pr) (send c pr s a p).1 ops) a p (genCode pr p h) h).2 = .ok := by
-  have hs : c.sendKeyFmt = .dash := hc.1
-  apply vc_send_then_verify_key c pr (by rw [hc.1, hc.2.1]) httl s a p h hacc ops
+  have hs : c.sendKeyFmt = .lenPrefix := hc.1
+  apply vc_send_then_verify_key c pr (by rw [hc.1, hc.2.1]) httl hcap s a p h hacc ops
   · intro o ho hsend hk
     rw [hs] at hk
-    exact hns o ho hsend ((key_eq_iff_pair c hc o a p ha (hd o ho)).1 hk)
-  · rw [hs, verifiesOf_eq_pair c hc a p ha ops hd]; exact hn
+    exact hns o ho hsend ((key_eq_iff_pair c hc o a p).1 hk)
+  · rw [hs]; exact hev
+  · rw [hs, verifiesOf_eq_pair c hc a p ops]; exact hn
 
-/-- immediately after the send (the empty history): needs only `MaxVerifyCount ≥ 1` -/
+/-- the same with the syntactic no-eviction condition: fewer operations on other pairs than the capacity -/
+theorem vc_send_then_verify_few_others (c : Cfg) (hc : Proved c) (pr : Params) (httl : pr.ttlExpired = false)
+    (s : State) (a p : Str) (h : Nat) (hacc : (send c pr s a p).2.accepted = some h)
+    (ops : List Op) (hns : ∀ o ∈ ops, o.isSend = true → o.pair ≠ (a, p))
+    (hfew : othersOfPair a p ops < pr.cap) (hn : (verifiesOfPair a p ops : Int) < pr.maxVerify) :
+    (verify c pr (final (step c pr) (send c pr s a p).1 ops) a p (genCode pr p h) h).2 = .ok := by
+  have hcap : 0 < pr.cap := by omega
+  apply vc_send_then_verify c hc pr httl hcap s a p h hacc ops hns _ hn
+  apply noEvict_of_few_others
+  rw [othersOf_eq_pair c hc a p ops]
+  have hs : c.sendKeyFmt = .lenPrefix := hc.1
+  have hp0 : posOr0 (mkKey .lenPrefix a p) (send c pr s a p).1.cache = 0 := by
+    unfold send at hacc ⊢
+    rw [hs] at hacc ⊢
+    rcases sendK_cases pr s (mkKey .lenPrefix a p) p with ⟨h1, _⟩ | ⟨cnt, _, h2, _⟩
+    · rw [h1] at hacc; cases hacc
+    · rw [h2]
+      simp only [posOr0, lookup_setLRU_self _ _ hcap, Option.isSome_some, if_true]
+      rw [setLRU, pos_take _ _ _ (by rw [pos_touch_self]; exact hcap), pos_touch_self]
+  rw [hp0]; omega
+
+/-- immediately after the send (the empty history): needs only `MaxVerifyCount ≥ 1` and `CacheSize ≥ 1` -/
 theorem vc_send_then_verify_now (c : Cfg) (hc : Proved c) (pr : Params) (httl : pr.ttlExpired = false)
-    (hmax : 1 ≤ pr.maxVerify) (s : State) (a p : Str) (h : Nat) (hacc : (send c pr s a p).2.accepted = some h) :
+    (hcap : 0 < pr.cap) (hmax : 1 ≤ pr.maxVerify) (s : State) (a p : Str) (h : Nat)
+    (hacc : (send c pr s a p).2.accepted = some h) :
     (verify c pr (send c pr s a p).1 a p (genCode pr p h) h).2 = .ok := by
-  have := vc_send_then_verify_key c pr (by rw [hc.1, hc.2.1]) httl s a p h hacc [] (by simp) (by simp [verifiesOf]; omega)
+  have := vc_send_then_verify_key c pr (by rw [hc.1, hc.2.1]) httl hcap s a p h hacc [] (by simp) rfl
+    (by simp [verifiesOf]; omega)
   simpa using this
 
 /-! ### vc_wrong_rejected -/
@@ -133,12 +285,6 @@ def OnlyAt (h : Nat) (k : Str) (s : State) : Prop :=
 
 theorem wf_init : WF State.init := by intro k e h; simp [State.init] at h
 
-theorem lookup_cons_cases (k k' : Str) (e e' : Entry) (cache : Cache) (h : lookup k ((k', e') :: cache) = some e) :
-    (k = k' ∧ e = e') ∨ (k ≠ k' ∧ lookup k cache = some e) := by
-  by_cases hk : k = k'
-  · subst hk; simp at h; exact Or.inl ⟨rfl, h.symm⟩
-  · rw [lookup_cons_ne hk] at h; exact Or.inr ⟨hk, h⟩
-
 theorem wf_step (c : Cfg) (pr : Params) (s : State) (o : Op) (hs : WF s) : WF (step c pr s o).1 := by
   cases o with
   | send a p =>
@@ -146,7 +292,7 @@ theorem wf_step (c : Cfg) (pr : Params) (s : State) (o : Op) (hs : WF s) : WF (s
     rcases sendK_cases pr s (mkKey c.sendKeyFmt a p) p with ⟨_, h2⟩ | ⟨cnt, _, h2, _⟩
     · rw [h2]; exact hs
     · rw [h2]; intro k e hl
-      rcases lookup_cons_cases _ _ _ _ _ hl with ⟨_, he⟩ | ⟨_, hl'⟩
+      rcases lookup_setLRU_cases _ _ _ _ _ _ hl with ⟨_, he⟩ | ⟨_, hl'⟩
       · subst he; exact Nat.le_refl _
       · exact Nat.le_succ_of_le (hs k e hl')
   | verify a p code hash =>
@@ -155,7 +301,7 @@ theorem wf_step (c : Cfg) (pr : Params) (s : State) (o : Op) (hs : WF s) : WF (s
     | none => rw [verifyK_none _ _ _ _ _ hl]; exact hs
     | some e0 =>
       rw [verifyK_some _ _ _ _ _ e0 hl]; intro k e hl2
-      rcases lookup_cons_cases _ _ _ _ _ hl2 with ⟨_, he⟩ | ⟨_, hl'⟩
+      rcases lookup_touch_cases _ _ _ _ _ hl2 with ⟨_, he⟩ | ⟨_, hl'⟩
       · subst he; exact hs _ e0 hl
       · exact hs k e hl'
 
@@ -173,7 +319,7 @@ theorem onlyAt_step (c : Cfg) (pr : Params) (h : Nat) (k : Str) (s : State) (o :
     · rw [h2]; exact ⟨hle, hon⟩
     · rw [h2]; refine ⟨Nat.le_succ_of_le hle, ?_⟩
       intro k' e hne hl
-      rcases lookup_cons_cases _ _ _ _ _ hl with ⟨_, he⟩ | ⟨_, hl'⟩
+      rcases lookup_setLRU_cases _ _ _ _ _ _ hl with ⟨_, he⟩ | ⟨_, hl'⟩
       · subst he; simp only; omega
       · exact hon k' e hne hl'
   | verify a p code hash =>
@@ -183,12 +329,12 @@ theorem onlyAt_step (c : Cfg) (pr : Params) (h : Nat) (k : Str) (s : State) (o :
     | some e0 =>
       rw [verifyK_some _ _ _ _ _ e0 hl]; refine ⟨hle, ?_⟩
       intro k' e hne hl2
-      rcases lookup_cons_cases _ _ _ _ _ hl2 with ⟨hk, he⟩ | ⟨_, hl'⟩
+      rcases lookup_touch_cases _ _ _ _ _ hl2 with ⟨hk, he⟩ | ⟨_, hl'⟩
       · subst he; exact hon _ e0 (hk ▸ hne) hl
       · exact hon k' e hne hl'
 
-/-- **vc_wrong_rejected, other pair** (key level, every configuration): the hash returned by an accepted send is, after any
-    history whatsoever, never accepted for an operation that addresses another key -/
+/-- **vc_wrong_rejected, other pair** (key level, every configuration, every capacity): the hash returned by an accepted send is,
+    after any history whatsoever, never accepted for an operation that addresses another key -/
 theorem vc_other_key_rejected (c : Cfg) (pr : Params) (s : State) (hs : WF s) (a p : Str) (h : Nat)
     (hacc : (send c pr s a p).2.accepted = some h) (ops : List Op) (a' p' : Str) (code : Code)
     (hne : mkKey c.verifyKeyFmt a' p' ≠ mkKey c.sendKeyFmt a p) :
@@ -202,23 +348,24 @@ theorem vc_other_key_rejected (c : Cfg) (pr : Params) (s : State) (hs : WF s) (a
       · have := wf_step c pr s (.send a p) hs; simpa [step, send] using this
       · rw [h2]; refine ⟨Nat.le_refl _, ?_⟩
         intro k' e hk hl
-        rw [lookup_cons_ne hk] at hl
-        have := hs k' e hl; omega
+        rcases lookup_setLRU_cases _ _ _ _ _ _ hl with ⟨hk', _⟩ | ⟨_, hl'⟩
+        · exact absurd hk' hk
+        · have := hs k' e hl'; omega
   have hfin := final_inv (step c pr) (fun s => WF s ∧ OnlyAt h (mkKey c.sendKeyFmt a p) s) (fun _ => True)
     (fun s i hi _ => onlyAt_step c pr h _ s i hi) ops _ h0 (fun _ _ => trivial)
   intro hok
   obtain ⟨e, hl, _, hh, _, _⟩ := vc_wrong_rejected c pr _ a' p' code h hok
   exact hfin.2.2 _ e hne hl hh
 
-/-- pair level: a hash sent to (a, p) never verifies any other pair (dash-free area codes) -/
+/-- pair level, ALL strings: a hash sent to (a, p) never verifies any other pair -/
 theorem vc_other_pair_rejected (c : Cfg) (hc : Proved c) (pr : Params) (s : State) (hs : WF s) (a p : Str) (h : Nat)
     (hacc : (send c pr s a p).2.accepted = some h) (ops : List Op) (a' p' : Str) (code : Code)
-    (ha : '-' ∉ a) (ha' : '-' ∉ a') (hne : (a', p') ≠ (a, p)) :
+    (hne : (a', p') ≠ (a, p)) :
     (verify c pr (final (step c pr) (send c pr s a p).1 ops) a' p' code h).2 ≠ .ok := by
   apply vc_other_key_rejected c pr s hs a p h hacc ops a' p' code
   rw [hc.1, hc.2.1]
   intro hk
-  have := mkKey_dash_inj a' a p' p ha' ha hk
+  have := mkKey_lenPrefix_inj a' a p' p hk
   exact hne (by rw [this.1, this.2])
 
 /-- nothing sent to a key ⇒ `notExist`, after any history that does not send to it -/
@@ -236,7 +383,7 @@ theorem vc_nothing_sent_not_exist (c : Cfg) (pr : Params) (k : Str) : ∀ (ops :
       | verify a p code hash =>
         have hk' : mkKey c.verifyKeyFmt a p = k := hk
         simp only [step, verify, hk']; rw [verifyK_none _ _ _ _ _ h]; exact h
-    · rw [step_lookup_other c pr s o k hk]; exact h
+    · exact step_lookup_other_none c pr s o k hk h
 
 /-! ### vc_attempts_bounded, vc_send_resets_attempts -/
 
@@ -259,7 +406,8 @@ def okSince (c : Cfg) (pr : Params) (k : Str) : State → List Op → Nat → Na
       else acc)
 
 theorem okSince_le (c : Cfg) (pr : Params) (k : Str) : ∀ (ops : List Op) (s : State) (acc : Nat),
-    (acc : Int) ≤ vcOf s k → acc ≤ pr.maxVerify.toNat → okSince c pr k s ops acc ≤ pr.maxVerify.toNat
+    (lookup k s.cache = none ∨ (acc : Int) ≤ vcOf s k) → acc ≤ pr.maxVerify.toNat →
+    okSince c pr k s ops acc ≤ pr.maxVerify.toNat
   | [], _, _, _, h2 => h2
   | o :: os, s, acc, h1, h2 => by
     simp only [okSince]
@@ -273,7 +421,14 @@ theorem okSince_le (c : Cfg) (pr : Params) (k : Str) : ∀ (ops : List Op) (s : 
         · simp only [Out.accepted, r1, Option.isSome_none, Bool.false_eq_true, if_false, r2]
           exact okSince_le c pr k os s acc h1 h2
         · simp only [Out.accepted, r1, Option.isSome_some, if_true, r2]
-          exact okSince_le c pr k os _ 0 (by simp [vcOf]) (Nat.zero_le _)
+          refine okSince_le c pr k os _ 0 ?_ (Nat.zero_le _)
+          cases hl : lookup k (setLRU pr.cap k ⟨cnt + 1, 0, genCode pr p (s.nsent + 1), s.nsent + 1⟩ s.cache) with
+          | none => exact Or.inl rfl
+          | some e' =>
+            right
+            rcases lookup_setLRU_cases _ _ _ _ _ _ hl with ⟨_, he⟩ | ⟨hne, _⟩
+            · simp [vcOf, hl, he]
+            · exact absurd rfl hne
       | verify a p code hash =>
         have hk' : mkKey c.verifyKeyFmt a p = k := hk
         simp only [Op.isSend, Bool.false_eq_true, if_false, step, verify, hk']
@@ -284,7 +439,10 @@ theorem okSince_le (c : Cfg) (pr : Params) (k : Str) : ∀ (ops : List Op) (s : 
           exact okSince_le c pr k os s acc h1 h2
         | some e =>
           rw [verifyK_some _ _ _ _ _ e hl]
-          have hv : vcOf s k = e.verifyCount := by simp [vcOf, hl]
+          have hv : (acc : Int) ≤ e.verifyCount := by
+            rcases h1 with h1 | h1
+            · rw [hl] at h1; cases h1
+            · simpa [vcOf, hl] using h1
           simp only
           split
           · rename_i hok
@@ -292,17 +450,22 @@ theorem okSince_le (c : Cfg) (pr : Params) (k : Str) : ∀ (ops : List Op) (s : 
               revert hok; cases checkVerify pr { e with verifyCount := e.verifyCount + 1 } code hash <;> simp [Out.isOk]
             have := ((checkVerify_ok_iff _ _ _ _).1 hck).1
             simp only at this
-            exact okSince_le c pr k os _ (acc + 1) (by simp [vcOf]; omega) (by omega)
-          · exact okSince_le c pr k os _ acc (by simp [vcOf]; omega) h2
+            exact okSince_le c pr k os _ (acc + 1) (Or.inr (by simp [vcOf]; omega)) (by omega)
+          · exact okSince_le c pr k os _ acc (Or.inr (by simp [vcOf]; omega)) h2
     · simp only [hk, if_false]
       refine okSince_le c pr k os _ acc ?_ h2
-      simp only [vcOf]; rw [step_lookup_other c pr s o k hk]; exact h1
+      rcases step_lookup_other c pr s o k hk with h3 | h3
+      · exact Or.inl h3
+      · rcases h1 with h1 | h1
+        · left; rw [h3]; exact h1
+        · right; simp only [vcOf] at h1 ⊢; rw [h3]; exact h1
 
-/-- **vc_attempts_bounded**, every configuration and every history from the empty cache: at any time the number of
-    successful verifies against a key since the last accepted send to it is at most `max MaxVerifyCount 0` -/
+/-- **vc_attempts_bounded**, every configuration, every capacity and every history from the empty cache: at any time the
+    number of successful verifies against a key since the last accepted send to it is at most `max MaxVerifyCount 0`
+    (eviction only deletes the entry; it never lets the count continue) -/
 theorem vc_attempts_bounded (c : Cfg) (pr : Params) (k : Str) (ops : List Op) :
     okSince c pr k State.init ops 0 ≤ pr.maxVerify.toNat :=
-  okSince_le c pr k ops State.init 0 (by simp [vcOf, State.init]) (Nat.zero_le _)
+  okSince_le c pr k ops State.init 0 (Or.inl rfl) (Nat.zero_le _)
 
 /-- once the attempt counter has reached the limit every further verify — right code and hash included — is refused -/
 theorem vc_limit_rejects_right_code (pr : Params) (s : State) (key : Str) (e : Entry)
@@ -312,32 +475,33 @@ theorem vc_limit_rejects_right_code (pr : Params) (s : State) (key : Str) (e : E
   simp only [checkVerify]
   rw [if_pos (by omega)]
 
-/-- after an accepted send and `MaxVerifyCount` or more attempts (any codes, any hashes, any interleaving with other keys),
-    even the right code with the right hash is refused with `retryLimit` -/
-theorem vc_attempts_exhausted (c : Cfg) (pr : Params) (hfmt : c.sendKeyFmt = c.verifyKeyFmt)
+/-- after an accepted send and `MaxVerifyCount` or more attempts (any codes, any hashes, any interleaving with other keys
+    that does not evict the entry), even the right code with the right hash is refused with `retryLimit` -/
+theorem vc_attempts_exhausted (c : Cfg) (pr : Params) (hfmt : c.sendKeyFmt = c.verifyKeyFmt) (hcap : 0 < pr.cap)
     (s : State) (a p : Str) (h : Nat) (hacc : (send c pr s a p).2.accepted = some h) (ops : List Op)
     (hns : ∀ o ∈ ops, o.isSend = true → o.key c ≠ mkKey c.sendKeyFmt a p)
+    (hev : noEvict c pr (mkKey c.sendKeyFmt a p) (send c pr s a p).1 ops = true)
     (hn : pr.maxVerify ≤ (verifiesOf c (mkKey c.sendKeyFmt a p) ops : Int)) :
     (verify c pr (final (step c pr) (send c pr s a p).1 ops) a p (genCode pr p h) h).2 = .retryLimit := by
-  unfold send at hacc ⊢
+  unfold send at hacc hev ⊢
   rcases sendK_cases pr s (mkKey c.sendKeyFmt a p) p with ⟨h1, _⟩ | ⟨cnt, h1, h2, _⟩
   · rw [h1] at hacc; cases hacc
   · have hl := track c pr (mkKey c.sendKeyFmt a p) ops (sendK pr s (mkKey c.sendKeyFmt a p) p).1 _
-      (by rw [h2]; exact lookup_cons_self _ _ _) hns
+      (by rw [h2]; exact lookup_setLRU_self _ _ hcap _ _) hns hev
     unfold verify
     rw [← hfmt]
     exact vc_limit_rejects_right_code pr _ _ _ hl (by simp only; omega) _ _
 
 /-- **vc_send_resets_attempts**: an accepted send leaves the key with zero attempts, whatever the counter was before
     (so by `vc_send_then_verify_now` the new code verifies even if the old one was exhausted) -/
-theorem vc_send_resets_attempts (c : Cfg) (pr : Params) (s : State) (a p : Str) (h : Nat)
+theorem vc_send_resets_attempts (c : Cfg) (pr : Params) (hcap : 0 < pr.cap) (s : State) (a p : Str) (h : Nat)
     (hacc : (send c pr s a p).2.accepted = some h) :
     ∃ cnt, lookup (mkKey c.sendKeyFmt a p) (send c pr s a p).1.cache = some ⟨cnt, 0, genCode pr p h, h⟩ := by
   unfold send at hacc ⊢
   rcases sendK_cases pr s (mkKey c.sendKeyFmt a p) p with ⟨h1, _⟩ | ⟨cnt, h1, h2, _⟩
   · rw [h1] at hacc; cases hacc
   · rw [h1] at hacc; cases hacc
-    exact ⟨cnt + 1, by rw [h2]; exact lookup_cons_self _ _ _⟩
+    exact ⟨cnt + 1, by rw [h2]; exact lookup_setLRU_self _ _ hcap _ _⟩
 
 /-! ### vc_send_limits -/
 
@@ -348,31 +512,23 @@ def acceptedSends (c : Cfg) (pr : Params) (k : Str) : State → List Op → Nat
     (if o.isSend && decide (o.key c = k) && (step c pr s o).2.accepted then 1 else 0) +
       acceptedSends c pr k (step c pr s o).1 os
 
-theorem step_lookup_isSome (c : Cfg) (pr : Params) (s : State) (o : Op) (k : Str)
-    (h : (lookup k s.cache).isSome = true) : (lookup k (step c pr s o).1.cache).isSome = true := by
-  by_cases hk : o.key c = k
-  · cases o with
-    | send a p =>
-      have hk' : mkKey c.sendKeyFmt a p = k := hk
-      simp only [step, send, hk']
-      rcases sendK_cases pr s k p with ⟨_, r2⟩ | ⟨cnt, _, r2, _⟩ <;> rw [r2]
-      · exact h
-      · simp
-    | verify a p code hash =>
-      have hk' : mkKey c.verifyKeyFmt a p = k := hk
-      simp only [step, verify, hk']
-      cases hl : lookup k s.cache with
-      | none => rw [hl] at h; cases h
-      | some e => rw [verifyK_some _ _ _ _ _ e hl]; simp
-  · rw [step_lookup_other c pr s o k hk]; exact h
+theorem noEvict_cons (c : Cfg) (pr : Params) (k : Str) (s : State) (o : Op) (os : List Op)
+    (h : noEvict c pr k s (o :: os) = true) :
+    (present k s = true → present k (step c pr s o).1 = true) ∧ noEvict c pr k (step c pr s o).1 os = true := by
+  simp only [noEvict, Bool.and_eq_true, Bool.or_eq_true, Bool.not_eq_true'] at h
+  refine ⟨fun hp => ?_, h.2⟩
+  rcases h.1 with h1 | h1
+  · rw [hp] at h1; cases h1
+  · exact h1
 
-/-- minimum-interval regime: once a key is bound, no send to it is accepted any more -/
+/-- minimum-interval regime: while a key stays bound, no send to it is accepted -/
 theorem sends_blocked_when_bound (c : Cfg) (pr : Params) (hmin : pr.minIntervalBlocks = true) (k : Str) :
-    ∀ (ops : List Op) (s : State), (lookup k s.cache).isSome = true → acceptedSends c pr k s ops = 0
-  | [], _, _ => rfl
-  | o :: os, s, h => by
+    ∀ (ops : List Op) (s : State), present k s = true → noEvict c pr k s ops = true → acceptedSends c pr k s ops = 0
+  | [], _, _, _ => rfl
+  | o :: os, s, h, hev => by
+    have hev' := noEvict_cons c pr k s o os hev
     simp only [acceptedSends]
-    rw [sends_blocked_when_bound c pr hmin k os _ (step_lookup_isSome c pr s o k h)]
+    rw [sends_blocked_when_bound c pr hmin k os _ (hev'.1 h) hev'.2]
     simp only [Nat.add_zero, ite_eq_right_iff]
     intro hcond
     exfalso
@@ -382,6 +538,7 @@ theorem sends_blocked_when_bound (c : Cfg) (pr : Params) (hmin : pr.minIntervalB
     | verify a p code hash => cases hs
     | send a p =>
       have hk' : mkKey c.sendKeyFmt a p = k := hk
+      simp only [present] at h
       cases hl : lookup k s.cache with
       | none => rw [hl] at h; cases h
       | some e =>
@@ -389,17 +546,18 @@ theorem sends_blocked_when_bound (c : Cfg) (pr : Params) (hmin : pr.minIntervalB
         cases hacc
 
 /-- **vc_send_limits (minimum interval)**: in the regime where the interval never elapses, at most one send per key is
-    ever accepted, over any history from any state -/
-theorem vc_send_limits_min_interval (c : Cfg) (pr : Params) (hmin : pr.minIntervalBlocks = true) (k : Str) :
-    ∀ (ops : List Op) (s : State), acceptedSends c pr k s ops ≤ 1
-  | [], _ => Nat.zero_le _
-  | o :: os, s => by
+    accepted over any history from any state during which the key is not evicted (capacity ≥ 1) -/
+theorem vc_send_limits_min_interval (c : Cfg) (pr : Params) (hmin : pr.minIntervalBlocks = true) (hcap : 0 < pr.cap)
+    (k : Str) : ∀ (ops : List Op) (s : State), noEvict c pr k s ops = true → acceptedSends c pr k s ops ≤ 1
+  | [], _, _ => Nat.zero_le _
+  | o :: os, s, hev => by
+    have hev' := noEvict_cons c pr k s o os hev
     simp only [acceptedSends]
     split
     · rename_i hcond
       simp only [Bool.and_eq_true, decide_eq_true_eq] at hcond
       obtain ⟨⟨hs, hk⟩, hacc⟩ := hcond
-      have hb : (lookup k (step c pr s o).1.cache).isSome = true := by
+      have hb : present k (step c pr s o).1 = true := by
         cases o with
         | verify a p code hash => cases hs
         | send a p =>
@@ -407,14 +565,15 @@ theorem vc_send_limits_min_interval (c : Cfg) (pr : Params) (hmin : pr.minInterv
           simp only [step, send, hk'] at hacc ⊢
           rcases sendK_cases pr s k p with ⟨r1, _⟩ | ⟨cnt, _, r2, _⟩
           · simp [Out.accepted, r1] at hacc
-          · rw [r2]; simp
-      rw [sends_blocked_when_bound c pr hmin k os _ hb]
+          · rw [r2]; simp [present, lookup_setLRU_self _ _ hcap]
+      rw [sends_blocked_when_bound c pr hmin k os _ hb hev'.2]
       exact Nat.le_refl _
-    · have := vc_send_limits_min_interval c pr hmin k os (step c pr s o).1
+    · have := vc_send_limits_min_interval c pr hmin hcap k os (step c pr s o).1 hev'.2
       omega
 
 theorem step_scOf (c : Cfg) (pr : Params) (s : State) (o : Op) (k : Str)
-    (h : ¬ (o.isSend = true ∧ o.key c = k)) : scOf (step c pr s o).1 k = scOf s k := by
+    (h : ¬ (o.isSend = true ∧ o.key c = k)) (hev : present k s = true → present k (step c pr s o).1 = true) :
+    scOf (step c pr s o).1 k = scOf s k := by
   by_cases hk : o.key c = k
   · cases o with
     | send a p => exact absurd ⟨rfl, hk⟩ h
@@ -424,15 +583,24 @@ theorem step_scOf (c : Cfg) (pr : Params) (s : State) (o : Op) (k : Str)
       cases hl : lookup k s.cache with
       | none => rw [verifyK_none _ _ _ _ _ hl, hl]
       | some e => rw [verifyK_some _ _ _ _ _ e hl]; simp [scOpt]
-  · simp only [scOf]; rw [step_lookup_other c pr s o k hk]
+  · simp only [scOf]
+    rcases step_lookup_other c pr s o k hk with h1 | h1
+    · cases hl : lookup k s.cache with
+      | none => rw [h1]
+      | some e =>
+        have := hev (by simp [present, hl])
+        simp [present, h1] at this
+    · rw [h1]
 
-/-- never-refreshed window: the accepted sends to a key never exceed `MaxCount + 1 − sendCount` -/
-theorem acceptedSends_le (c : Cfg) (pr : Params) (hwin : pr.windowRefreshes = false) (k : Str) :
-    ∀ (ops : List Op) (s : State), acceptedSends c pr k s ops ≤ (pr.maxCount + 1 - scOf s k).toNat
-  | [], _ => Nat.zero_le _
-  | o :: os, s => by
+/-- never-refreshed window: the accepted sends to a key never exceed `MaxCount + 1 − sendCount` while it is not evicted -/
+theorem acceptedSends_le (c : Cfg) (pr : Params) (hwin : pr.windowRefreshes = false) (hcap : 0 < pr.cap) (k : Str) :
+    ∀ (ops : List Op) (s : State), noEvict c pr k s ops = true →
+      acceptedSends c pr k s ops ≤ (pr.maxCount + 1 - scOf s k).toNat
+  | [], _, _ => Nat.zero_le _
+  | o :: os, s, hev => by
+    have hev' := noEvict_cons c pr k s o os hev
     simp only [acceptedSends]
-    have ih := acceptedSends_le c pr hwin k os (step c pr s o).1
+    have ih := acceptedSends_le c pr hwin hcap k os (step c pr s o).1 hev'.2
     split
     · rename_i hcond
       simp only [Bool.and_eq_true, decide_eq_true_eq] at hcond
@@ -448,7 +616,7 @@ theorem acceptedSends_le (c : Cfg) (pr : Params) (hwin : pr.windowRefreshes = fa
           rcases checkSend_ok_cnt pr _ cnt r3 with ⟨hw, _⟩ | ⟨_, hle, hcnt⟩
           · rw [hwin] at hw; cases hw
           · have hsc : scOf s k = cnt := by simp only [scOf]; rw [hcnt]
-            simp only [scOf, lookup_cons_self, scOpt] at ih
+            simp only [scOf, lookup_setLRU_self _ _ hcap, scOpt] at ih
             rw [hsc]; omega
     · rename_i hcond
       by_cases hsk : o.isSend = true ∧ o.key c = k
@@ -461,13 +629,15 @@ theorem acceptedSends_le (c : Cfg) (pr : Params) (hwin : pr.windowRefreshes = fa
           rcases sendK_cases pr s k p with ⟨_, r2⟩ | ⟨cnt, r1, _, _⟩
           · rw [r2] at ih ⊢; omega
           · exfalso; apply hcond; simp [Op.isSend, Op.key, hk', Out.accepted, r1]
-      · rw [step_scOf c pr s o k hsk] at ih; omega
+      · rw [step_scOf c pr s o k hsk hev'.1] at ih; omega
 
 /-- **vc_send_limits (count per window)**: with a window that is never refreshed, at most `MaxCount + 1` sends per key are
-    accepted over any history from the empty cache (the bound the code implements: `sendCount > MaxCount`) -/
-theorem vc_send_limits_count (c : Cfg) (pr : Params) (hwin : pr.windowRefreshes = false) (k : Str) (ops : List Op) :
+    accepted over any history from the empty cache that does not evict the key (the bound the code implements:
+    `sendCount > MaxCount`; recorded as an observation in docs/C19.md) -/
+theorem vc_send_limits_count (c : Cfg) (pr : Params) (hwin : pr.windowRefreshes = false) (hcap : 0 < pr.cap) (k : Str)
+    (ops : List Op) (hev : noEvict c pr k State.init ops = true) :
     acceptedSends c pr k State.init ops ≤ (pr.maxCount + 1).toNat := by
-  have := acceptedSends_le c pr hwin k ops State.init
+  have := acceptedSends_le c pr hwin hcap k ops State.init hev
   simpa [scOf, scOpt, State.init] using this
 
 /-! ### vc_code_length, nonce_alphabet_surjective -/
@@ -475,11 +645,10 @@ theorem vc_send_limits_count (c : Cfg) (pr : Params) (hwin : pr.windowRefreshes 
 theorem mockCode_length (phone : Str) (n : Nat) : (mockCode phone n).length = n := by
   unfold mockCode; split <;> simp <;> omega
 
-/-- **vc_code_length**: a mock code has exactly `CodeLen` characters; `genNonceStr` (which produces the real codes) returns
-    exactly `len` characters whenever it returns -/
-theorem vc_code_length (pr : Params) (hm : pr.mock = true) (phone : Str) (k : Nat) :
-    ∃ t, genCode pr phone k = .lit t ∧ t.length = pr.codeLen :=
-  ⟨mockCode phone pr.codeLen, by simp [genCode, hm], mockCode_length _ _⟩
+/-- **vc_code_length** (mock mode, configured length ≥ 0): the code has exactly `CodeLen` characters -/
+theorem vc_code_length (pr : Params) (hm : pr.mock = true) (hlen : 0 ≤ pr.codeLen) (phone : Str) (k : Nat) :
+    ∃ t, genCode pr phone k = .lit t ∧ (t.length : Int) = pr.codeLen :=
+  ⟨mockCode phone pr.codeLen.toNat, by simp [genCode, hm], by rw [mockCode_length]; omega⟩
 
 theorem genNonce_length (b : NonceBound) (base : Str) (len : Nat) (vals : List Nat) (out : Str)
     (h : genNonce b base len vals = some out) : out.length = len := by
@@ -489,6 +658,15 @@ theorem genNonce_length (b : NonceBound) (base : Str) (len : Nat) (vals : List N
   · split at h
     · cases h
     · cases h; exact nonceLoop_length _ _ _ _
+
+theorem genNonce_some (b : NonceBound) (base : Str) (len : Nat) (vals : List Nat) (hpos : 0 < boundOf b base.length) :
+    ∃ out, genNonce b base len vals = some out := by
+  unfold genNonce
+  split
+  · exact ⟨_, rfl⟩
+  · split
+    · omega
+    · exact ⟨_, rfl⟩
 
 theorem boundOf_le (b : NonceBound) (n : Nat) : boundOf b n ≤ n := by cases b <;> simp [boundOf] <;> omega
 
@@ -506,6 +684,20 @@ theorem genNonce_mem (b : NonceBound) (base : Str) (len : Nat) (vals : List Nat)
       have hb := boundOf_le b base.length
       have := nonceLoop_mem base (boundOf b base.length).toNat (by omega) (by omega) len vals x hx
       exact ⟨this, List.mem_of_mem_take this⟩
+
+/-- **vc_code_length** (real-sender mode, configured length ≥ 0, `Proved c`): whatever the random source returns, the
+    code generated at send `k` is `genNonce .len "0123456789" CodeLen (rnd k)`: it exists (no panic), has exactly `CodeLen`
+    characters, all of them decimal digits -/
+theorem vc_code_length_real (c : Cfg) (hc : Proved c) (pr : Params) (hm : pr.mock = false) (hlen : 0 ≤ pr.codeLen)
+    (rnd : Nat → List Nat) (phone : Str) (k : Nat) :
+    ∃ t, (genCode pr phone k).text c.nonceBound pr rnd = some t ∧ (t.length : Int) = pr.codeLen ∧ ∀ x ∈ t, x ∈ digits := by
+  rw [hc.2.2]
+  simp only [genCode, hm, Bool.false_eq_true, if_false]
+  split
+  · exact ⟨[], rfl, by simp; omega, by simp⟩
+  · obtain ⟨out, ho⟩ := genNonce_some .len digits pr.codeLen.toNat (rnd k) (by simp [boundOf, digits])
+    refine ⟨out, ho, ?_, fun x hx => (genNonce_mem _ _ _ _ _ ho x hx).2⟩
+    rw [genNonce_length _ _ _ _ _ ho]; omega
 
 /-- the characters the oracle prints for a `sample` line are exactly those some random source can produce -/
 theorem reachable_iff (b : NonceBound) (base : Str) (x : Char) (hpos : 0 < boundOf b base.length) :
@@ -534,7 +726,7 @@ theorem nonce_alphabet_surjective' (c : Cfg) (hc : Proved c) (base : Str) (x : C
   obtain ⟨i, hi, rfl⟩ := List.getElem_of_mem hx
   exact ⟨[i], by rw [hc.2.2]; exact nonce_alphabet_surjective base i hi⟩
 
-/-- with today's bound (`fn(bSize - 1)`) the last character of a duplicate-free alphabet is never produced -/
+/-- with the bound `fn(bSize - 1)` the last character of a duplicate-free alphabet is never produced -/
 theorem nonce_lenMinus1_never_last (base : Str) (hnd : base.Nodup) (len : Nat) (vals : List Nat) (out : Str)
     (h : genNonce .lenMinus1 base len vals = some out) (x : Char) (hlast : base.getLast? = some x) : x ∉ out := by
   intro hx
@@ -552,21 +744,33 @@ theorem nonce_lenMinus1_never_last (base : Str) (hnd : base.Nodup) (len : Nat) (
 
 /-! ### non-vacuity: concrete non-trivial instances of the hypotheses -/
 
-def cfgFixed : Cfg := ⟨.dash, .dash, .len⟩
-def cfgToday : Cfg := ⟨.dash, .plain, .lenMinus1⟩
-/-- real sender, 6 digits, MaxCount 1, MaxVerifyCount 2, never-expiring, never too frequent, window never refreshed -/
-def prStd : Params := ⟨false, 6, 1, 2, false, false, false, false⟩
-def prMock : Params := ⟨true, 2, 1, 2, false, false, false, false⟩
+def cfgFixed : Cfg := ⟨.lenPrefix, .lenPrefix, .len⟩
+def cfgDash : Cfg := ⟨.dashJoin, .dashJoin, .len⟩
+def cfgOld : Cfg := ⟨.dashJoin, .plain, .lenMinus1⟩
+/-- CacheSize 1000, real sender, 6 digits, MaxCount 1, MaxVerifyCount 2, never-expiring, never too frequent, window never refreshed -/
+def prStd : Params := ⟨1000, false, 6, 1, 2, false, false, false, false⟩
+def prMock : Params := ⟨1000, true, 2, 1, 2, false, false, false, false⟩
 
 example : Proved cfgFixed := by decide
-example : ¬ Proved cfgToday := by decide
+example : ¬ Proved cfgDash := by decide
+example : ¬ Proved cfgOld := by decide
 
-/-- `vc_send_then_verify`: after a send to (1,23), a wrong guess, and traffic on the colliding-looking pair (12,3),
-    the code still verifies; hypotheses hold (one attempt < 2) -/
+/-- the keys: decimal length of the area code, ':', area code, phone -/
+example : mkKey .lenPrefix ['1','-','2'] ['3'] = ['3',':','1','-','2','3'] ∧
+    mkKey .lenPrefix ['1'] ['2','-','3'] = ['1',':','1','2','-','3'] ∧ mkKey .lenPrefix [] [] = ['0',':'] := by decide
+example : dec 1234567890123 = "1234567890123".toList := by decide
+
+/-- `vc_send_then_verify`: after a send to ("1-2","3"), a wrong guess, and traffic on ("1","2-3") — the pair that shares the
+    dashed key — the code still verifies and the other pair is refused; hypotheses hold (one attempt < 2, 2 others < 1000) -/
 example : (outs (step cfgFixed prStd) State.init
-    [.send ['1'] ['2','3'], .verify ['1'] ['2','3'] (.lit ['x']) 1, .send ['1','2'] ['3'],
-     .verify ['1','2'] ['3'] (.sym 1) 1, .verify ['1'] ['2','3'] (.sym 1) 1]) =
+    [.send ['1','-','2'] ['3'], .verify ['1','-','2'] ['3'] (.lit ['x']) 1, .send ['1'] ['2','-','3'],
+     .verify ['1'] ['2','-','3'] (.sym 1) 1, .verify ['1','-','2'] ['3'] (.sym 1) 1]) =
     [.send (.ok 1), .verify .notMatch, .send (.ok 2), .verify .notMatch, .verify .ok] := by decide
+
+example : noEvict cfgFixed prStd (mkKey .lenPrefix ['1','-','2'] ['3'])
+    (send cfgFixed prStd State.init ['1','-','2'] ['3']).1
+    [.verify ['1','-','2'] ['3'] (.lit ['x']) 1, .send ['1'] ['2','-','3'], .verify ['1'] ['2','-','3'] (.sym 1) 1] = true := by
+  decide
 
 /-- `vc_attempts_bounded` / `vc_attempts_exhausted`: MaxVerifyCount = 2 — two wrong guesses, then the right code is refused;
     `vc_send_resets_attempts`: a new send makes the new code verify -/
@@ -581,44 +785,71 @@ example : (outs (step cfgFixed prStd) State.init [.send [] ['5'], .send [] ['5']
 example : (outs (step cfgFixed { prStd with minIntervalBlocks := true }) State.init [.send [] ['5'], .send [] ['5']]) =
     [.send (.ok 1), .send .tooFreq] := by decide
 
-/-- mock code: last two characters / left padding; a failing sender still stores the code and returns the hash -/
+/-- mock code: last two characters / left padding; a failing sender still stores the code and returns the hash;
+    a negative CodeLen: empty code with the real sender, panic in mock mode -/
 example : mockCode ['5','5','5','1','2'] 2 = ['1','2'] ∧ mockCode ['7'] 3 = ['0','0','7'] := by decide
 example : (outs (step cfgFixed { prStd with smsFails := true }) State.init
     [.send ['1'] ['2','3'], .verify ['1'] ['2','3'] (.sym 1) 1]) = [.send (.smsFail 1), .verify .ok] := by decide
+example : (outs (step cfgFixed { prStd with codeLen := -1 }) State.init
+    [.send ['1'] ['2','3'], .verify ['1'] ['2','3'] (.lit []) 1]) = [.send (.ok 1), .verify .ok] := by decide
+example : (outs (step cfgFixed { prMock with codeLen := -1 }) State.init [.send ['1'] ['2','3']]) = [.send .panic] := by decide
 
 example : genNonce .len ['a','b','c'] 3 [2, 5, 0] = some ['c','c','a'] := by decide
+example : (Code.sym 1).text .len prStd (fun _ => [9, 19, 0, 5, 3, 7]) = some ['9','9','0','5','3','7'] := by decide
 example : WF (final (step cfgFixed prStd) State.init [.send ['1'] ['2','3']]) := wf_reachable _ _ _
 
-/-! ### witnesses: the property is false of today's configuration -/
+/-! ### witnesses -/
 
-/-- F17 — today's formats (`"%s-%s"` for send, `"%s%s"` for verify): the code just sent, with the returned hash,
-    is answered `notExist` -/
+/-- OPEN DEFECT — today's format `"%s-%s"` in both methods: ("1-2","3") and ("1","2-3") share the key `1-2-3`; the code
+    sent to one pair is accepted for the other, to which nothing was sent -/
+theorem witness_dashJoin_collision :
+    mkKey .dashJoin ['1','-','2'] ['3'] = mkKey .dashJoin ['1'] ['2','-','3'] ∧
+    (outs (step cfgDash { prMock with codeLen := 1 }) State.init
+      [.send ['1','-','2'] ['3'], .verify ['1'] ['2','-','3'] (.lit ['3']) 1]) = [.send (.ok 1), .verify .ok] := by decide
+
+theorem not_other_pair_rejected_dashJoin :
+    ¬ (∀ (a p a' p' : Str) (code : Code), (a', p') ≠ (a, p) →
+        (verify cfgDash { prMock with codeLen := 1 } (send cfgDash { prMock with codeLen := 1 } State.init a p).1 a' p' code 1).2 ≠ .ok) := by
+  intro h
+  exact h ['1','-','2'] ['3'] ['1'] ['2','-','3'] (.lit ['3']) (by decide) (by decide)
+
+/-- OBSERVATION — a bounded cache forgets: with CacheSize 2, sends to two other pairs evict the entry; the sent code is then
+    `notExist`, and in the minimum-interval regime a second send to the same pair is accepted again -/
+theorem witness_eviction_forgets :
+    (outs (step cfgFixed { prStd with cap := 2, minIntervalBlocks := true }) State.init
+      [.send ['1'] ['1'], .send ['1'] ['1'], .send ['1'] ['2'], .send ['1'] ['3'],
+       .verify ['1'] ['1'] (.sym 1) 1, .send ['1'] ['1']]) =
+      [.send (.ok 1), .send .tooFreq, .send (.ok 2), .send (.ok 3), .verify .notExist, .send (.ok 4)] := by decide
+
+/-- a verify (`Get`) promotes, a refused send (`Peek`) does not -/
+theorem witness_lru_order :
+    (outs (step cfgFixed { prStd with cap := 2 }) State.init
+      [.send ['1'] ['1'], .send ['1'] ['2'], .verify ['1'] ['1'] (.lit ['x']) 0, .send ['1'] ['3'],
+       .verify ['1'] ['1'] (.sym 1) 1, .verify ['1'] ['2'] (.sym 2) 2]) =
+      [.send (.ok 1), .send (.ok 2), .verify .notMatch, .send (.ok 3), .verify .ok, .verify .notExist] := by decide
+
+/-- FIXED (afdf9f1) — formats `"%s-%s"` for send, `"%s%s"` for verify: the code just sent is answered `notExist` -/
 theorem witness_key_mismatch :
-    (outs (step cfgToday prStd) State.init [.send ['8','6'] ['5','5','5'], .verify ['8','6'] ['5','5','5'] (.sym 1) 1]) =
+    (outs (step cfgOld prStd) State.init [.send ['8','6'] ['5','5','5'], .verify ['8','6'] ['5','5','5'] (.sym 1) 1]) =
       [.send (.ok 1), .verify .notExist] := by decide
-
-/-- F17, second face: the code sent to (12, 3) is accepted for the pair (1, "2-3"), to which nothing was sent -/
-theorem witness_dash_plain_alias :
-    (outs (step cfgToday prMock) State.init [.send ['1','2'] ['3'], .verify ['1'] ['2','-','3'] (.lit ['0','3']) 1]) =
-      [.send (.ok 1), .verify .ok] := by decide
 
 /-- were both formats `"%s%s"`, (1,23) and (12,3) would share a key: the code sent to one verifies the other -/
 theorem witness_plain_plain_collision :
     (outs (step ⟨.plain, .plain, .len⟩ prStd) State.init [.send ['1'] ['2','3'], .verify ['1','2'] ['3'] (.sym 1) 1]) =
       [.send (.ok 1), .verify .ok] := by decide
 
-/-- F18 — today's bound `fn(bSize - 1)`: whatever the source returns (here: every residue), '9' is never produced -/
+/-- FIXED (1eca911) — bound `fn(bSize - 1)`: whatever the source returns (here: every residue), '9' is never produced -/
 theorem witness_last_char_unreachable :
     ∀ v ∈ List.range 30, genNonce .lenMinus1 "0123456789".toList 1 [v] ≠ some ['9'] := by decide
 
 theorem witness_last_char_reachable_when_fixed :
     genNonce .len "0123456789".toList 1 [9] = some ['9'] := by decide
 
-/-- a one-character alphabet makes today's `genNonceStr` panic (`Intn(0)`) -/
+/-- a one-character alphabet makes `fn(bSize - 1)` panic (`Intn(0)`) -/
 theorem witness_single_char_panics : genNonce .lenMinus1 ['a'] 1 [0] = none := by decide
 
-theorem not_surjective_today :
-    ¬ (∀ x ∈ "0123456789".toList, ∃ vals, genNonce cfgToday.nonceBound "0123456789".toList 1 vals = some [x]) := by
+theorem not_surjective_lenMinus1 :
+    ¬ (∀ x ∈ "0123456789".toList, ∃ vals, genNonce cfgOld.nonceBound "0123456789".toList 1 vals = some [x]) := by
   intro h
   obtain ⟨vals, hv⟩ := h '9' (by decide)
   exact nonce_lenMinus1_never_last "0123456789".toList (by decide) 1 vals ['9'] hv '9' (by decide) (by simp)
